@@ -19,6 +19,9 @@ R9  "wait on / free concurrently": nsync_note_free requires an empty waiter list
 R10 the disconnect protocol's own state - a note's parent pointer, child list and disconnecting count - is read and written only with that note's
     mutex held (= C08.R5 for these fields): an unlocked peek at child->disconnecting can see 0 just before the child's disconnector raises
     it, and the notifier then unlinks the child under that thread's feet - its cached parent is freed while it still means to lock it.
+R11 "no such call deadlocks": a loop that re-reads the head of a child / waiter list on every iteration (`while ((p = first (list)) != NULL)`)
+    unlinks an element of that list on every path round the loop; nsync_note_free deliberately leaves children that somebody else is
+    disconnecting on the list, so a drain-the-list loop over them spins for ever with the note's and the parent's mutexes held.
 R6  a notifier performs the unlock-n / lock-cached-parent step only if it raised n->disconnecting from zero (path-sensitive: the count read
     under n's mutex is abstracted to {0, non-zero}); otherwise a second disconnector can unlink n, the parent is freed, and the stale pointer is
     locked (finding F5, repaired).
@@ -165,6 +168,8 @@ def run(ctx, rep):
                                       site='%s/unprotected-%s' % (r.inst.fn.name, r.field.split('.')[1])))
     if n10 == 0:
         raise AnalysisBroken('C09.R10: no access to the disconnect state seen')
+    rep.rule('C09.R11', 'a loop that re-reads a list head each time round unlinks from that list on every path through its body')
+    check_drain_loops(mod, rep, 'C09.R11')
     rep.floor('C09.R1', 6)
     rep.floor('C09.R2', 2)
     rep.floor('C09.R3', 1)
@@ -196,3 +201,35 @@ def check_waking_unlock(eng, rep, rid):
         rep.instance(rid, '%d releases of note mutexes examined' % n8); rep.oblig(rid, True)
     else:
         raise AnalysisBroken('%s: no release of a note mutex seen' % rid)
+
+
+def check_drain_loops(mod, rep, rid):
+    from ..cfg import cfg_of, paths_avoiding
+    n = 0
+    for fn in mod.defined.values():
+        if not (fn.file or '').endswith('note.c'):
+            continue
+        cfg = cfg_of(fn)
+        for h, body in cfg.loops().items():
+            # head re-read inside the loop: load of a list field followed by nsync_dll_first_ in the loop, its result decides the exit
+            for i in fn.real_insts():
+                if i.block.id not in body or i.op != 'call' or i.callee != 'nsync_dll_first_' or not isinstance(i.ops[0], str):
+                    continue
+                ld = fn.imap.get(i.ops[0])
+                if ld is None or ld.op != 'load' or ld.block.id not in body:
+                    continue
+                fld = util.last_field(util.addr_class(mod, fn, ld.ops[0]))
+                if fld not in ('nsync_note_s_.children', 'nsync_note_s_.waiters'):
+                    continue
+                # writes to that list field inside the loop (the result of a remove stored back)
+                unl = set(id(j) for j in fn.real_insts() if j.block.id in body and j.op == 'store' and util.last_field(util.addr_class(mod, fn, j.ops[1])) == fld)
+                calls = set(id(j) for j in fn.real_insts() if j.block.id in body and j.op == 'call' and j.callee and j.callee != 'nsync_dll_first_'
+                            and mod.func(j.callee) is not None and not mod.func(j.callee).decl and (mod.func(j.callee).file or '').endswith('note.c'))
+                n += 1
+                again = paths_avoiding(fn, i, lambda j: j is i, lambda j: id(j) in unl or id(j) in calls or j.block.id not in body)
+                rep.instance(rid, '%s: loop at %s re-reads the head of %s; every trip unlinks (or hands the element to a note function): %s' % (fn.name, i.where(), fld, again is None)); rep.oblig(rid, again is None)
+                if again is not None:
+                    rep.violate(Violation(rid, i.where(), '%s: this loop takes the first element of %s again on every iteration but has a path round the loop that leaves the list unchanged (an element it decides to skip stays first): the loop never ends, with the note\'s mutex - and the parent\'s - held, so the thread that is disconnecting that element can never finish either' % (fn.name, fld.split('.')[1]),
+                                          site='%s/drain-loop-no-progress' % fn.name))
+    if n == 0:
+        rep.instance(rid, 'no loop in note.c re-reads the head of a child / waiter list (nothing to show)'); rep.oblig(rid, True)
